@@ -54,7 +54,54 @@ def plan(tier):
             (W["always"], alphabet_alw, 3 if q else 5), (W["always3"], alphabet_alw, 3 if q else 5)]
 
 
+def e2_scenarios(tier):
+    from ..e2 import scenarios as SC
+    from .c07 import extra_worlds
+    from ..worlds import S, World
+    q = tier == "quick"
+    w = extra_worlds()["always-shared"]
+    w3 = World("always-fan3", {"s": ["0", "1"]},
+               {"top.do": [S(deps=["d1", "d2", "d3"])], "d1.do": [S(deps=["al"])], "d2.do": [S(deps=["al"], out="file")],
+                "d3.do": [S(deps=["al"])], "al.do": [S(kind="always", deps=["s"], out="file")]},
+               ["top", "d1", "d2", "d3", "al"], ["top"])
+    vis = SC.TOKENS + ["lock-try", "txn-begin"]
+    L = [(SC.scn("always-2-dependents-j2", w, ["redo --no-log -j2 top"], visible=vis), 1 if q else 2),
+         (SC.scn("always-2-dependents-rebuild-j2", w, ["redo --no-log -j2 top"], setup=[["ifchange", ["top"]]], visible=vis), 1 if q else 2)]
+    if not q:
+        L.append((SC.scn("always-3-dependents-j3", w3, ["redo --no-log -j3 top"], visible=vis), 2))
+        L.append((SC.scn("always-3-dependents-rebuild-j2", w3, ["redo --no-log -j2 top"], setup=[["ifchange", ["top"]]], visible=vis), 2))
+    return L
+
+
+def e2_oracle(scn, res):
+    if res["verdict"] != "done":
+        return []
+    out = []
+    ran = [l.split(" ")[1] for l in res["trace"] if l.startswith("B ")]
+    if ran.count("al") != 1:
+        out.append(({"kind": "always-target-not-exactly-once", "scenario": scn["name"], "count": ran.count("al")}, {"ran": ran}))
+    if any(rc != 0 for rc in res["roots"].values()):
+        out.append(({"kind": "build-failed", "scenario": scn["name"]}, {"roots": res["roots"]}))
+    return out
+
+
 def main(tier):
+    import json as _json
+    from .. import e2prop
+    rc1 = main_e1(tier)
+    ev = _json.load(open(common.EVIDENCE_DIR / "C14.json"))
+    rc2 = e2prop.run_property(
+        PID, tier, e2_scenarios(tier), e2_oracle,
+        rule=ev["coverage"]["rule"] + " Parallel part (E2): a redo-always target with 2-3 dependents requested concurrently at "
+        "-j2/-j3, first build and rebuild, every schedule with <= b deviations (quick 1, thorough 2): its script starts exactly once.",
+        assumptions=ev["assumptions"], budget_s=600 if tier == "quick" else 3000,
+        extra={"e1": {k: ev["coverage"][k] for k in ("states", "transitions", "traces_validated_against_impl", "worlds",
+                                                    "oracle_counters", "distinct_observed_outcomes")},
+               "e1_violations": ev.get("violations", 0)})
+    return 1 if (rc1 or rc2) else 0
+
+
+def main_e1(tier):
     return e1prop.run_property(
         PID, tier, plan(tier), "rv.props.c14",
         rule="BFS over histories <= d (quick 3-4, thorough 5-6) of {redo-ifchange t, create f, delete f, edit f, edit unrelated u} "
@@ -69,6 +116,10 @@ def main(tier):
 
 def replay(path):
     doc = json.load(open(path))
+    if doc.get("engine") == "E2":
+        from .. import e2prop
+        sc = {s["name"]: s for s, _ in e2_scenarios("thorough")}
+        return e2prop.replay(PID, sc, e2_oracle, path)
     W = dict(worlds.curated())
     bindir = common.build_subject()
     key, viols, summ = replay_history(W[doc["world"]], doc["history"], step_check, bindir=bindir)
